@@ -81,6 +81,7 @@ def gen_history(rng, max_steps=30, family='generic'):
     ops = ['R %d %d' % (orth, trans)]
     shapes, juncs, conns = [], [], []
     fresh = set()          # shapes added since the last processTransaction (must not be deleted before it)
+    cends = {}             # connector -> its two ends as last set
     nid = [1]
 
     def newid():
@@ -113,6 +114,7 @@ def gen_history(rng, max_steps=30, family='generic'):
                 b = 'P %d %d' % (rng.range(0, 400), rng.range(0, 400))   # no connector from a junction to itself
             ops.append('C %d %s %s' % (i, a, b))
             conns.append(i)
+            cends[i] = [a, b]
         elif op == 3 and shapes:
             s = rng.choice(shapes)
             ops.append('M %d %d %d' % (s[0], rng.range(-30, 30), rng.range(-30, 30)))
@@ -127,7 +129,11 @@ def gen_history(rng, max_steps=30, family='generic'):
             ops.append('X %d' % c)
             conns.remove(c)
         elif op == 6 and conns:
-            ops.append('E %d %d %s' % (rng.choice(conns), rng.below(2), end()))
+            c, w, e = rng.choice(conns), rng.below(2), end()
+            if e[0] == 'J' and cends[c][1 - w] == e:
+                e = 'P %d %d' % (rng.range(0, 400), rng.range(0, 400))   # no connector from a junction to itself (also not via setEndpoint)
+            cends[c][w] = e
+            ops.append('E %d %d %s' % (c, w, e))
         elif op in (7, 8):
             ops.append('T')
             fresh.clear()
